@@ -311,6 +311,10 @@ where
                 let packet_id = pubrel.packet_identifier;
                 Self::ack::<PubcompReason>(tx, packet_id).await?
             }
+            RxPacket::Connack(_) | RxPacket::Auth(_) => {
+                // Not expected once the connection is established.
+                return Err(CodecError::from(InvalidPacketHeader).into());
+            }
             other => {
                 let action_id = utils::rx_action_id(&other);
 
